@@ -355,7 +355,11 @@ theorem processHeader_shape (s : State) (b : BlockAbs) :
       · split
         · exact ⟨s1.bestHdr, hself⟩
         · exact ⟨b.hash, rfl⟩
-  cases res <;> first | exact hupd | exact ⟨s1.bestHdr, hself⟩
+  cases res <;> first
+    | exact ⟨s1.bestHdr, hself⟩
+    | (simp only []; split
+       · exact ⟨s1.bestHdr, hself⟩
+       · exact hupd)
 
 theorem rep_processHeader (s : State) (b : BlockAbs) (hr : Rep s) : Rep (processHeader s b).1 := by
   obtain ⟨x, hx⟩ := processHeader_shape s b
